@@ -57,8 +57,13 @@ struct Run {
 	static void binary(uint64_t a, uint64_t b) {
 		L pa = mk(a), pb = mk(b);
 		if (g_muldiv) {
+			// equal encodings: ONE object on both sides (x op= x) — the result must not depend on aliasing
+			if (a == b) { L t = pa; t *= t; L u = pa; u /= u;
+				hdr("mul"); std::printf(" %llx %llx => %llx\n", (ull)a, (ull)b, (ull)enc(t));
+				hdr("div"); std::printf(" %llx %llx => %llx\n", (ull)a, (ull)b, (ull)enc(u)); }
+			else {
 			hdr("mul"); std::printf(" %llx %llx => %llx\n", (ull)a, (ull)b, (ull)enc(pa * pb));
-			hdr("div"); std::printf(" %llx %llx => %llx\n", (ull)a, (ull)b, (ull)enc(pa / pb));
+			hdr("div"); std::printf(" %llx %llx => %llx\n", (ull)a, (ull)b, (ull)enc(pa / pb)); }
 		}
 		if (g_addsub) {
 			static const double mx = double(L(SpecificValue::maxpos));
@@ -106,6 +111,12 @@ struct Run {
 		case 7: { unsigned z = (unsigned)g.below(nbits - 1); e = (g.next() & EM) & ~uv::mask(z); break; } // low bits cleared (integer-ish exponents)
 		case 8: { unsigned z = (unsigned)g.below(nbits - 1); e = (g.next() & EM) | uv::mask(z); break; }  // low bits set
 		default: e = (1ull << g.below(nbits - 1)) & EM; break;              // single bit
+		}
+		if (g.below(10) == 0) {
+			// exactly one non-zero storage limb: per-block code paths (iszero/isnan for 1, 2, n blocks) are told apart by these
+			constexpr unsigned bpb = L::bitsInBlock; constexpr unsigned nl = L::nrBlocks;
+			unsigned k = (unsigned)g.below(nl); uint64_t limb = g.next() & uv::mask(bpb); if (!limb) limb = 1;
+			return ((bpb * k >= 64) ? 0 : (limb << (bpb * k))) & M;
 		}
 		return ((g.coin() ? (1ull << (nbits - 1)) : 0) | e) & M;
 	}
